@@ -9,34 +9,53 @@ from pathlib import Path
 
 from harness import common
 from harness.common import Ck, VERIF
-from translate import c15_pixel
+from translate import c15_container, c15_frame, c15_pixel
 
 MANIFEST = dict(
     technique='Rocq proof (symbolic bit-level evaluation of the translated pixel codecs proved sound, so the round-trip laws hold '
               'for all 2^32 pixels / all stored values; induction over exponents for the mipmap table; linear arithmetic for '
-              'bounds and scale_down indexes) + ast translators + vm_compute correspondence + save/read oracle search',
-    text='Theorems in Props/C15.v, generic in the codec read from _py_vtf_readwrite.py: if the kernel-checked boolean rt_ok codec spec '
-         'holds then load(save p) is exactly the documented quantisation of p for every byte-valued pixel (identity on the used channels '
-         'for the 8-bit formats), every stored value is a byte; if sf_ok holds then save(load d) = d on every stored value (up to the '
-         'don\'t-care X bits) and save(load(save p)) = save p. For all sizes 2^a x 2^b (induction) the mipmap loop of VTF.__init__ creates '
-         'levels 0..min(a,b) with halved sizes, and save/read walk exactly the declared levels with those sizes; Frame pixel access with '
-         'all four rejections present only touches bytes inside the buffer; scale_down reads the 2x2 parent block inside the parent '
-         'buffer and the bilinear filter writes the floor of its mean. The premises (18 codecs, loop constants, comparison operators, '
-         'offset formulas, strides) are regenerated from vtf.py/_py_vtf_readwrite.py on every run and checked in the kernel; the '
-         'generated codecs are compared with the Python codecs (exhaustive 2^16 stored values, per-channel sweeps, random pixels); '
-         'whole files are saved and read back over all sizes 1x1..64x64, frames, depth, cubemaps, versions 7.2-7.5, all writable formats, '
-         'resources and sheets.',
-    note='Trusted: Coq kernel + vm_compute, translate/c15_pixel.py (cross-checked dynamically against the running codecs), the model of '
-         'byte-valued buffers (array("B")/bytearray reject values outside 0..255, proved never to happen), CPython struct for the header. '
-         'The container (header, resource directory, offsets), resources, particle sheets and the two *_BLUESCREEN formats are searched, '
-         'not modelled. Known findings (recorded, not repaired because the repair changes pinned snapshot files under tests/test_vtf): '
-         'mipmap_count is one less than the number of levels (mipmap-count-off-by-one), RGB565/BGR565 exchange R and B on a round trip '
-         '(rgb565-rb-swap); both are carved out of the theorems as *_pinned / *_refuted statements. DXT/ATI formats are not writable '
-         'from Python and outside the property. The Cython twin cannot be built here and is not verified.',
+              'bounds and scale_down indexes; induction over the chain of mipmap levels for the Frame life cycle; struct model for '
+              'every pack/unpack site of the container) + ast translators (codecs, layout, abstract interpretation of class Frame, '
+              'pack/unpack site census) + vm_compute correspondences (codecs, frame histories, container both directions) + '
+              'save/read oracle search',
+    text='Theorems in Props/C15.v, generic in the objects read from the source. Codecs (_py_vtf_readwrite.py): if the kernel-checked '
+         'boolean rt_ok codec spec holds then load(save p) is exactly the documented quantisation of p for every byte-valued pixel '
+         '(identity on the used channels for the 8-bit formats), every stored value is a byte; if sf_ok holds then save(load d) = d on '
+         'every stored value (up to the don\'t-care X bits) and save(load(save p)) = save p. For all sizes 2^a x 2^b (induction) the '
+         'mipmap loop of VTF.__init__ creates levels 0..min(a,b) with halved sizes, and save/read walk exactly the declared levels with '
+         'those sizes; Frame pixel access with all four rejections present only touches bytes inside the buffer; scale_down reads the '
+         '2x2 parent block inside the parent buffer and the bilinear filter writes the floor of its mean. Frame life cycle: the effect of '
+         'every method of class Frame on (_data, _fileinfo) is computed from vtf.py by abstract interpretation and compared in the '
+         'kernel with the tables of the model; for every chain of mipmap levels in any state (lazily read, loaded, written to, cleared) '
+         'compute_mipmaps()+save() write for each level the file\'s pixels while it still has its file source, else its pixels, else '
+         '(cleared) the scaled pixels written for the level above - so a file read lazily and saved again keeps its bytes (composed '
+         'with the codec fixpoint theorem). Container: every struct.pack/unpack site of VTF.save/VTF.read and of the particle-sheet '
+         'records is regenerated (format strings, field order on both sides, read lengths); for a site that passes site_ok every '
+         'fitting value tuple is read back unchanged under the same field names (floats as 32-bit patterns); blocks laid out behind any '
+         'prefix are found again at the running offsets (resource data blocks, thumbnail, frames in save/read order). The premises are '
+         'regenerated from vtf.py/_py_vtf_readwrite.py on every run and checked in the kernel (142 obligations); the generated codecs '
+         'are compared with the Python codecs, the generated Frame effect tables are run by Coq on symbolic pixels against histories of '
+         'operations on the implementation, implementation-saved files are decoded by the Coq container model and model-encoded files '
+         'are read by VTF.read; whole files are saved and read back over all sizes 1x1..64x64, frames, depth, cubemaps, versions 7.2-7.5, '
+         'all writable formats, resources and sheets.',
+    note='Trusted: Coq kernel + vm_compute, translate/c15_pixel.py, c15_frame.py (abstract interpreter; cross-checked dynamically by the '
+         'frame-history correspondence), c15_container.py (its tables of expression -> field name), the model of byte-valued buffers, '
+         'CPython struct as modelled by Bin/Struct.v (floats as bit patterns; NaN payloads not exercised). The whole-file composition '
+         '(directory walk + offsets + optional parts by version) is an executable Coq model tied by a two-way correspondence, not a '
+         'theorem; proved are its parts (sites, blocks at offsets, data block, texture coordinates). Sheets: record-level theorems + '
+         'correspondence; the nested-list round trip is not proved. The two *_BLUESCREEN formats and nearest-neighbour filters are '
+         'searched, not modelled. Known findings (recorded, not repaired): mipmap_count is one less than the number of levels '
+         '(mipmap-count-off-by-one), RGB565/BGR565 exchange R and B on a round trip (rgb565-rb-swap) - both carved out of the theorems '
+         'as *_pinned / *_refuted statements - and cubemaps saved with a version= override across the 7.5 sphere-map boundary '
+         '(cubemap-save-version-override-across-sphere-map-boundary; the container model has no version override). DXT/ATI formats '
+         'are not writable from Python and outside the property. The Cython twin cannot be built here and is not verified.',
 )
 
 IMPORTS = ['Coq.NArith.NArith', 'Coq.ZArith.ZArith', 'Coq.Lists.List', 'SV.Fmt.VtfPixelExpr', 'SV.Fmt.VtfLayout',
            'SV.Gen.PixelCodecs_gen', 'SV.Gen.VtfLayout_gen']
+IMPORTS_CONT = ['Coq.NArith.NArith', 'Coq.ZArith.ZArith', 'Coq.Lists.List', 'Coq.Strings.String', 'Coq.Bool.Bool', 'SV.Bin.Struct',
+                'SV.Fmt.VtfContainer', 'SV.Gen.VtfContainer_gen']
+IMPORTS_FRAME = ['Coq.Lists.List', 'Coq.Strings.String', 'Coq.Bool.Bool', 'SV.Fmt.VtfFrameSM', 'SV.Gen.VtfFrameSM_gen']
 
 # format (lower case) -> (specification of load-after-save, canonical stored form)
 SPECS = {
@@ -192,6 +211,7 @@ def corr_codecs(ck: Ck, cod: dict) -> None:
     from concurrent.futures import ThreadPoolExecutor
     from srctools.vtf import ImageFormats
     n_rand = ck.budget(250, 2500)
+    full_sweep = ck.budget(0, 1) == 1
     special = [(0, 0, 0, 0), (255, 255, 255, 255), (255, 0, 0, 255), (0, 255, 0, 255), (0, 0, 255, 255), (0, 0, 255, 0),
                (1, 2, 3, 4), (127, 128, 129, 127), (128, 127, 126, 128), (7, 3, 7, 127), (248, 252, 248, 128), (8, 4, 8, 129)]
     jobs: list[tuple[list[str], list[tuple]]] = []
@@ -231,14 +251,29 @@ def corr_codecs(ck: Ck, cod: dict) -> None:
         # Coq: exact on the sample (both directions), fingerprint over the exhaustive stored sweep
         exprs, meta = [], []
         lit = '[' + ';'.join(str(pk(p)) for p in pixels) + ']'
-        exprs.append(f'map (fun v => pack (run (save_e codec_{name}) (unpack 4 v))) {lit}')
-        meta.append(('save', name, pixels, [pk(s) for s in stored_i]))
         lit2 = '[' + ';'.join(str(pk(s)) for s in stored_i) + ']'
-        exprs.append(f'map (fun v => pack (run (load_e codec_{name}) (unpack {bpp} v))) {lit2}')
-        meta.append(('load', name, stored_i, [pk(l) for l in loaded_i]))
-        if bpp <= 2:
+        if full_sweep:
+            exprs.append(f'map (fun v => pack (run (save_e codec_{name}) (unpack 4 v))) {lit}')
+            meta.append(('save', name, pixels, [pk(s) for s in stored_i]))
+            exprs.append(f'map (fun v => pack (run (load_e codec_{name}) (unpack {bpp} v))) {lit2}')
+            meta.append(('load', name, stored_i, [pk(l) for l in loaded_i]))
+        else:
+            # quick tier: the kernel evaluates every sample pixel but prints only a 61-bit fingerprint of the results
+            # (printing dominates the cost); a mismatch escalates to the exact comparison of the thorough tier
+            exprs.append(f'fp (map (fun v => pack (run (save_e codec_{name}) (unpack 4 v))) {lit})')
+            meta.append(('fp', name, len(pixels), py_fp(pk(s) for s in stored_i)))
+            exprs.append(f'fp (map (fun v => pack (run (load_e codec_{name}) (unpack {bpp} v))) {lit2})')
+            meta.append(('fp', name, len(stored_i), py_fp(pk(l) for l in loaded_i)))
+        if bpp == 1 or (bpp == 2 and full_sweep):
             exprs.append(f'fp (map (fun d => pack (run (load_e codec_{name}) d)) all{bpp})')
             meta.append(('fp', name, None, py_fp(pk(l) for l in load_all)))
+        elif bpp == 2:
+            # quick tier: the kernel evaluates a random eighth of the 2^16 stored values (the Python evaluation of the
+            # translated expressions above is still exhaustive); the thorough tier and any broken tie run all of them
+            sub = sorted(ck.rng.sample(range(65536), 8192))
+            lit3 = '[' + ';'.join(str(v) for v in sub) + ']'
+            exprs.append(f'fp (map (fun v => pack (run (load_e codec_{name}) (unpack 2 v))) {lit3})')
+            meta.append(('fp', name, None, py_fp(pk(load_all[v]) for v in sub)))
         jobs.append((exprs, meta))
     ck.obligation('correspondence:translator-ir', not bad_ir,
                   f'{len(cod)} codecs: translated expressions evaluated in Python vs srctools._py_vtf_readwrite on per-channel sweeps, '
@@ -264,9 +299,11 @@ def corr_codecs(ck: Ck, cod: dict) -> None:
         for (kind, name, inp, exp), v in zip(metas, vals):
             if kind == 'fp':
                 n_fp += 1
-                ck.count('coq_exhaustive_stored_sweeps')
+                ck.count('coq_fingerprinted_sweeps')
+                if inp:
+                    n_exact += inp
                 if int(v) != exp:
-                    bad.append({'format': name, 'what': 'fingerprint of load over all stored values differs', 'coq': v, 'impl': exp})
+                    bad.append({'format': name, 'what': 'fingerprint of the kernel evaluation differs from the implementation', 'coq': v, 'impl': exp})
                 continue
             got = common.parse_coq_N_list(v)
             n_exact += len(got)
@@ -276,8 +313,8 @@ def corr_codecs(ck: Ck, cod: dict) -> None:
                             'coq': got[i] if i is not None else len(got), 'impl': exp[i] if i is not None else len(exp)})
     ck.count('coq_codec_evaluations', n_exact)
     ck.obligation('correspondence:coq-codecs', not bad,
-                  f'{n_exact} save/load evaluations of Gen/PixelCodecs_gen.v by vm_compute equal the Python codecs exactly; '
-                  f'{n_fp} exhaustive stored-value sweeps (2^8 / 2^16 values) agree by 61-bit fingerprint: {len(bad)} disagreements')
+                  f'{n_exact} save/load evaluations of Gen/PixelCodecs_gen.v by vm_compute equal the Python codecs (' + ('value by value' if full_sweep else 'by 61-bit fingerprint per format and direction; value by value in the thorough tier') + '); '
+                  f'{n_fp} stored-value sweeps (all 2^8 values; ' + ('all 2^16' if full_sweep else 'a random 2^13 of the 2^16') + f' values of the 2-byte formats) agree by 61-bit fingerprint: {len(bad)} disagreements')
     if bad:
         ck.tie_broken.append('correspondence generated codecs vs _py_vtf_readwrite')
         ck.extra['codec_disagreement'] = bad[:5]
@@ -632,6 +669,41 @@ def search_files(ck: Ck) -> None:
     ck.extra['file_violation_keys'] = sorted(found)
 
 
+
+def cube_override(v0: int, v1: int) -> str | None:
+    """A cubemap of version 7.v0 saved with save(version=(7, v1)); -> description of what goes wrong, or None."""
+    from srctools.vtf import VTF, ImageFormats, VTFFlags
+    rng = random.Random(v0 * 8 + v1)
+    v = VTF(4, 4, version=(7, v0), fmt=ImageFormats.RGBA8888, thumb_fmt=ImageFormats.NONE, flags=VTFFlags.ENVMAP)
+    for f in v._frames.values():
+        f.copy_from(rng.randbytes(4 * f.width * f.height))
+    buf = io.BytesIO()
+    try:
+        v.save(buf, version=(7, v1))
+        v2 = VTF.read(io.BytesIO(buf.getvalue()))
+        v2.load()
+    except Exception as e:
+        return f'cubemap 7.{v0} saved as 7.{v1}: {type(e).__name__}: {e}'
+    for k, f in v2._frames.items():
+        if k[2] < v.mipmap_count and (k not in v._frames or bytes(f._data) != bytes(v._frames[k]._data)):
+            return f'cubemap 7.{v0} saved as 7.{v1}: side {k} reads back other pixels than were saved ({len(v._frames)} frames before, {len(v2._frames)} after)'
+    return None
+
+
+def search_cube_override(ck: Ck) -> None:
+    for v0 in (2, 3, 4, 5):
+        for v1 in (2, 3, 4, 5):
+            if v0 == v1:
+                continue
+            ck.count('cubemap_version_overrides')
+            ck.seen(('cube_override', v0, v1))
+            what = cube_override(v0, v1)
+            if what is not None:
+                across = (v0 >= 5) != (v1 >= 5)
+                ck.violation('cubemap-save-version-override-across-sphere-map-boundary' if across else 'cubemap-save-version-override-differs',
+                             what, {'cube_override': [v0, v1]})
+
+
 # ================================================================================================ bounds / mipmap filters / sheets
 def search_bounds(ck: Ck) -> None:
     from srctools.vtf import VTF
@@ -707,6 +779,580 @@ def search_filters(ck: Ck) -> None:
                                  {'filter': [w, h, m.value]})
 
 
+
+
+# ================================================================================================ container
+_SITES = ['version', 'header', 'depth', 'res_count', 'entry_inline', 'sheet_head', 'sheet_seq', 'sheet_dur', 'sheet_tex']
+CONT_OBS = {f'site_{n}_same_format_and_field_order_on_both_sides': f'site_ok gen_{n}' for n in _SITES}
+CONT_OBS.update({
+    'header_is_51_bytes_and_15_values': '(Nat.eqb (calcsize (fmt_of (w_fmt gen_header))) 51 && Nat.eqb (nvalues (fmt_of (w_fmt gen_header))) 15)%bool',
+    'offset_entries_are_id_flags_then_a_deferred_4_byte_slot_like_the_reader_expects':
+        '(negb (Nat.eqb (List.length gen_entry_offset_w) 0) && forallb (fun e => fmt_eqb (fmt_of (fst (fst e)) ++ fmt_of (snd e)) (fmt_of (r_fmt gen_entry_inline)) '
+        '&& Nat.eqb (List.length (snd (fst e))) 2) gen_entry_offset_w)%bool',
+    'data_block_length_written_and_read_with_the_same_format':
+        '(negb (Nat.eqb (List.length gen_block_len_w) 0) && forallb (fun f => fmt_eqb (fmt_of f) (fmt_of (fst gen_block_len_r))) gen_block_len_w '
+        '&& Z.eqb (snd gen_block_len_r) (Z.of_nat (calcsize (fmt_of (fst gen_block_len_r)))))%bool',
+    'every_deferred_offset_is_filled_with_the_position_of_its_data':
+        '(forallb (fun d => existsb (fun sd => String.eqb (fst sd) (fst (fst d)) && String.eqb (snd sd) "file.tell()") gen_set_data) gen_defers '
+        '&& Nat.eqb (List.length gen_defers) (List.length gen_set_data) '
+        '&& forallb (fun d => Bool.eqb (snd d) (negb (String.eqb (fst (fst d)) "\'header_size\'"))) gen_defers)%bool',
+    'version_tests_agree_between_save_and_read':
+        '(forallb (fun g => existsb (fun h => String.eqb (fst g) (fst h) && Z.eqb (snd g) (snd h)) gen_read_guards) gen_save_guards '
+        '&& forallb (fun g => existsb (fun h => String.eqb (fst g) (fst h) && Z.eqb (snd g) (snd h)) gen_save_guards) gen_read_guards '
+        '&& forallb (fun g => String.eqb (fst g) ">=" && (Z.eqb (snd g) 2 || Z.eqb (snd g) 3)) gen_read_guards)%bool',
+    'padding_before_7_3_has_the_size_of_the_resource_count_record':
+        'match gen_pads with (p :: nil) => Z.eqb p (Z.of_nat (calcsize (fmt_of (w_fmt gen_res_count)))) | _ => false end',
+    'header_values_end_up_in_their_attributes':
+        'forallb (fun e => existsb (fun g => String.eqb (fst g) (fst e) && strs_eqb (snd g) (snd e)) gen_read_attrs) '
+        '(("width", "width" :: nil) :: ("height", "height" :: nil) :: ("frame_count", "frame_count" :: nil) :: ("first_frame_index", "first_frame_index" :: nil) '
+        ':: ("mipmap_count", "mipmap_count" :: nil) :: ("flags", "VTFFlags(flags)" :: nil) :: ("reflectivity", "Vec(ref_r, ref_g, ref_b)" :: nil) '
+        ':: ("bumpmap_scale", "bumpmap_scale" :: nil) :: ("format", "FORMAT_ORDER[high_format]" :: nil) '
+        ':: ("version", "(version_major, version_minor)" :: nil) :: ("low_format", "FORMAT_ORDER[low_format]" :: nil) :: nil)%string',
+    'reader_tests_resource_flag_2': 'gen_read_tests_flag_2',
+    'sheet_reader_advances_by_the_record_sizes':
+        'match gen_sheet_incs with (a :: b :: c :: d :: e :: nil) => (Z.eqb a (Z.of_nat (calcsize (fmt_of (r_fmt gen_sheet_head)))) '
+        '&& Z.eqb b (Z.of_nat (calcsize (fmt_of (r_fmt gen_sheet_seq)))) && Z.eqb c (Z.of_nat (calcsize (fmt_of (r_fmt gen_sheet_dur)))) '
+        '&& Z.eqb d (Z.of_nat (calcsize (fmt_of (r_fmt gen_sheet_tex)))) && Z.eqb e (4 * Z.of_nat (calcsize (fmt_of (r_fmt gen_sheet_tex)))))%bool | _ => false end',
+    'sheet_reader_takes_the_four_coordinates_at_0_16_32_48':
+        'strs_eqb gen_sheet_tex_offs ("offset" :: "offset" :: "offset + 16" :: "offset + 32" :: "offset + 48" :: nil)%string',
+    'sheet_writer_emits_coordinates_a_b_c_d_in_order': 'strs_eqb gen_sheet_tex_written ("tex_a" :: "tex_b" :: "tex_c" :: "tex_d" :: nil)%string',
+    'sheet_version_tests_present_on_both_sides':
+        '(existsb (String.eqb "version == 1") gen_sheet_tests && existsb (String.eqb "version == 0") gen_sheet_tests)%bool%string',
+})
+
+PRE_CONT = """Import ListNotations. Open Scope list_scope.
+Definition F : cfmts := {| f_version := fmt_of (w_fmt gen_version); f_header := fmt_of (w_fmt gen_header); f_depth := fmt_of (w_fmt gen_depth);
+  f_count := fmt_of (w_fmt gen_res_count); f_entry := fmt_of (w_fmt gen_entry_inline); f_len := fmt_of (fst gen_block_len_r) |}.
+Definition SF : sfmts := {| s_head := fmt_of (w_fmt gen_sheet_head); s_seq := fmt_of (w_fmt gen_sheet_seq); s_dur := fmt_of (w_fmt gen_sheet_dur);
+  s_tex := fmt_of (w_fmt gen_sheet_tex) |}.
+Definition zn (z : Z) : N := Z.to_N (z + 4294967296).
+Definition serv (v : value) : list N := match v with VInt z => [zn z] | VFloat b => [b] | VBool b => [if b then 1 else 0]%N | VBytes l => l end.
+Definition ser_res (r : list N * Z * resval) : list N :=
+  let '(id, fl, x) := r in id ++ [zn fl] ++ match x with RInline v => [0; zn v]%N | RData d => [1; N.of_nat (List.length d)]%N ++ d end.
+Definition ser_sheet (bs : list N) : list N :=
+  match read_sheet SF bs with
+  | None => [777]%N
+  | Some (ver, qs) => [zn ver; N.of_nat (List.length qs)] ++ flat_map (fun q => [zn (sq_num q); (if sq_clamp q then 1 else 0)%N; sq_total q; N.of_nat (List.length (sq_frames q))]
+        ++ flat_map (fun f => sf_duration f :: List.concat (sf_coords f)) (sq_frames q)) qs
+  end.
+Definition dec (low_size : nat) (bs : list N) : list N :=
+  match decode_file F low_size bs with
+  | None => [999]%N
+  | Some (m, hdr, d, res, sheet, lo, hi) =>
+      [zn m] ++ flat_map serv hdr ++ [zn d; N.of_nat (List.length res)] ++ flat_map ser_res res
+      ++ match sheet with Some sb => 1%N :: ser_sheet sb | None => [0]%N end ++ [N.of_nat lo; N.of_nat hi]
+  end.
+Definition enc (v : vfile) : list N := match encode_file F v with Some bs => bs | None => [999]%N end.
+Definition mk_sheet (ver : Z) (qs : list sheet_seq) : list N := match make_sheet SF ver qs with Some bs => bs | None => [999]%N end.
+"""
+
+
+def _fbits(x: float) -> int:
+    return struct.unpack('<I', struct.pack('<f', x))[0]
+
+
+def _zn(z: int) -> int:
+    return z + 4294967296
+
+
+def cont_config(rng: random.Random, fmts: list[str]) -> dict:
+    w, h = rng.choice([(1, 1), (2, 1), (1, 4), (2, 2), (4, 2), (4, 4), (8, 2), (2, 8), (8, 8)])
+    small = [f for f in fmts if 'BLUESCREEN' not in f]
+    c = gen_config(rng, w, h, small)
+    c['save_version'] = None
+    c['mode'] = 'explicit'
+    return c
+
+
+def _build_vtf(cfg: dict):
+    from srctools.vtf import VTF, ImageFormats, VTFFlags, Resource, ResourceID, SheetSequence, TexCoord
+    from srctools.math import Vec
+    rng = random.Random(cfg['seed'])
+    sheet = {}
+    if cfg['sheet']:
+        for sn, sq in cfg['sheet'].items():
+            sheet[int(sn)] = SheetSequence([(d, *[TexCoord(*t) for t in tcs]) for d, tcs in sq['frames']], sq['clamp'], sq['duration'])
+    vtf = VTF(cfg['w'], cfg['h'], version=(7, cfg['version']), ref=Vec(*cfg['ref']), frames=cfg['frames'], bump_scale=cfg['bump'],
+              sheet_info=sheet, flags=VTFFlags(cfg['flags'] | (0x4000 if cfg['cube'] else 0)), fmt=ImageFormats[cfg['fmt']],
+              thumb_fmt=ImageFormats[cfg['thumb']], depth=cfg['depth'])
+    vtf.first_frame_index = cfg['first_frame']
+    for rid, fl, data in cfg['resources']:
+        key = rid.encode('latin1')
+        try:
+            key = ResourceID(key)
+        except ValueError:
+            pass
+        vtf.resources[key] = Resource(fl, data if isinstance(data, int) else bytes.fromhex(data))
+    for fr in vtf._frames.values():
+        fr.copy_from(rng.randbytes(4 * fr.width * fr.height))
+    vtf._low_res.copy_from(rng.randbytes(4 * 16 * 16))
+    return vtf
+
+
+def _expected_meta(cfg: dict, vtf, n_extra_res: int) -> list[int]:
+    """the serialisation `dec` must print, from the configuration (not from the file)"""
+    ver = cfg['version']
+    n_res = len(cfg['resources']) + 2 + (1 if cfg['sheet'] else 0)
+    hs = 80 + 8 * n_res if ver >= 3 else 80
+    out = [_zn(ver), _zn(hs), _zn(cfg['w']), _zn(cfg['h']), _zn(cfg['flags'] | (0x4000 if cfg['cube'] else 0)), _zn(cfg['frames']), _zn(cfg['first_frame'])]
+    out += [_fbits(x) for x in cfg['ref']] + [_fbits(cfg['bump'])]
+    out += [_zn(vtf.format.bin_value(True)), _zn(vtf.mipmap_count), _zn(vtf.low_format.bin_value(True)), _zn(16), _zn(16)]
+    out += [_zn(cfg['depth'])]
+    if ver >= 3:
+        out.append(len(cfg['resources']))
+        for rid, fl, data in cfg['resources']:
+            out += list(rid.encode('latin1'))
+            if isinstance(data, int):
+                out += [_zn(fl | 2), 0, _zn(data)]
+            else:
+                d = bytes.fromhex(data)
+                out += [_zn(fl & ~2), 1, len(d)] + list(d)
+        if cfg['sheet']:
+            out += [1, _zn(cfg['sheet_ver']), len(cfg['sheet'])]
+            for sn, sq in cfg['sheet'].items():
+                out += [_zn(int(sn)), 1 if sq['clamp'] else 0, _fbits(sq['duration']), len(sq['frames'])]
+                for d, tcs in sq['frames']:
+                    out.append(_fbits(d))
+                    for t in tcs:
+                        out += [_fbits(x) for x in t]
+        else:
+            out.append(0)
+    else:
+        out += [0, 0]
+    return out
+
+
+def _coq_sheet(cfg: dict) -> str:
+    qs = []
+    for sn, sq in cfg['sheet'].items():
+        frs = '; '.join('{| sf_duration := %d; sf_coords := [%s] |}' % (_fbits(d), '; '.join('[' + '; '.join(str(_fbits(x)) for x in t) + ']%N' for t in tcs))
+                        for d, tcs in sq['frames'])
+        qs.append('{| sq_num := %d; sq_clamp := %s; sq_total := %d; sq_frames := [%s] |}' % (int(sn), 'true' if sq['clamp'] else 'false', _fbits(sq['duration']), frs))
+    return f'(mk_sheet {cfg["sheet_ver"]} [{"; ".join(qs)}])'
+
+
+def corr_container(ck: Ck) -> None:
+    """Both directions: files saved by the implementation are decoded by the Coq model (decode_file / read_sheet over the
+    GENERATED formats) and compared with the configuration; files encoded by the Coq model are read by VTF.read."""
+    from srctools.vtf import VTF, ImageFormats, SheetSequence
+    from srctools import _py_vtf_readwrite as rw
+    fmts = sorted(f.name for f in rw._SAVE if f in rw._LOAD)
+    n = ck.budget(14, 60)
+    cfgs = []
+    forced = [dict(version=2), dict(version=3, resources=[['CRC', 0, 7], ['KVD', 0, '0102030405']]), dict(version=4, cube=True, depth=1),
+              dict(version=5, cube=True, depth=1), dict(version=5, depth=3, frames=2)]
+    for i in range(n):
+        c = cont_config(ck.rng, fmts)
+        if i < len(forced):
+            c.update(forced[i])
+            if c['version'] < 3:
+                c['resources'], c['sheet'] = [], None
+        cfgs.append(c)
+    exprs, metas = [], []
+    for c in cfgs:
+        try:
+            vtf = _build_vtf(c)
+            buf = io.BytesIO()
+            vtf.save(buf, sheet_seq_version=c['sheet_ver'])
+        except Exception as e:
+            ck.violation(f'save-raises-{type(e).__name__}', f'save raised {type(e).__name__}: {e}', {'config': c})
+            continue
+        b1 = buf.getvalue()
+        lazy = VTF.read(io.BytesIO(b1))
+        offs = [f._fileinfo[1] for f in lazy._frames.values() if f._fileinfo]
+        low_fi = lazy._low_res._fileinfo
+        low_size = ImageFormats[c['thumb']].frame_size(16, 16) if c['thumb'] != 'NONE' else 0
+        exp = _expected_meta(c, vtf, 0)
+        hi = min(offs) if offs else len(b1)
+        lo = hi - low_size
+        exp += [lo if (c['version'] >= 3 or True) else 0, hi]
+        ck.count('container_files_decoded_by_model')
+        ck.hist('container_version', f'7.{c["version"]}')
+        ck.hist('container_shape', ('cube' if c['cube'] else f'depth{c["depth"]}') + f'/res{len(c["resources"])}' + ('/sheet' if c['sheet'] else ''))
+        ck.seen(('cont', json.dumps(c, sort_keys=True)))
+        exprs.append(f'dec (N.to_nat {low_size}%N) {common.coq_bytes(b1)}')
+        metas.append(('dec', c, exp, None))
+        # model -> implementation: same metadata, fresh random image blocks of the right sizes
+        r = random.Random(c['seed'] + 1)
+        order = [f for f in lazy._frames.values()]          # dict order of read() = order in the file
+        blocks = [r.randbytes(vtf.format.frame_size(f.width, f.height)) for f in order]
+        lowb = r.randbytes(low_size)
+        hdr = [0, c['w'], c['h'], c['flags'] | (0x4000 if c['cube'] else 0), c['frames'], c['first_frame']]
+        hv = '; '.join(f'VInt {v}' for v in hdr) + '; ' + '; '.join(f'VFloat {_fbits(x)}' for x in c['ref']) + f'; VFloat {_fbits(c["bump"])}; ' \
+            + '; '.join(f'VInt ({v})' for v in [vtf.format.bin_value(True), vtf.mipmap_count, vtf.low_format.bin_value(True), 16, 16])
+        res = '; '.join('(%s, %d%%Z, %s)' % (common.coq_bytes(rid.encode('latin1')), fl,
+                                          f'RInline {d}%Z' if isinstance(d, int) else f'RData {common.coq_bytes(bytes.fromhex(d))}')
+                        for rid, fl, d in c['resources'])
+        sheet = f'Some {_coq_sheet(c)}' if c['sheet'] else 'None'
+        exprs.append('enc {| v_minor := %d; v_header := [%s]; v_depth := %d; v_res := [%s]; v_sheet := %s; v_low := %s; v_high := [%s] |}'
+                     % (c['version'], hv, c['depth'], res, sheet, common.coq_bytes(lowb), '; '.join(common.coq_bytes(b) for b in blocks)))
+        metas.append(('enc', c, (vtf, blocks, lowb, [k for k in lazy._frames]), None))
+    vals = ck.coq_eval(IMPORTS_CONT, exprs, name='container', preamble=PRE_CONT, timeout=600) if exprs else []
+    if vals is None:
+        ck.obligation('correspondence:container', False, 'the container model could not be evaluated in Coq')
+        ck.tie_broken.append('correspondence container: Coq evaluation failed')
+        return
+    bad = []
+    for (kind, c, exp, _), v in zip(metas, vals):
+        got = common.parse_coq_N_list(v)
+        if kind == 'dec':
+            if got != exp:
+                i = next((i for i, (a, b) in enumerate(zip(got, exp)) if a != b), min(len(got), len(exp)))
+                bad.append({'direction': 'implementation file decoded by the model', 'config': c, 'first_difference_at': i,
+                            'model': got[max(0, i - 2):i + 3], 'expected': exp[max(0, i - 2):i + 3]})
+            continue
+        vtf, blocks, lowb, keys = exp
+        ck.count('container_files_encoded_by_model')
+        try:
+            data = bytes(got)
+            v2 = VTF.read(io.BytesIO(data))
+            probs = []
+            for a in ('width', 'height', 'depth', 'frame_count', 'first_frame_index', 'mipmap_count', 'flags', 'format', 'low_format', 'bumpmap_scale', 'version'):
+                if getattr(v2, a) != getattr(vtf, a):
+                    probs.append(a)
+            if tuple(v2.reflectivity) != tuple(vtf.reflectivity):
+                probs.append('reflectivity')
+            want = [(k, (r.flags | 2) if isinstance(r.data, int) else (r.flags & ~2), r.data) for k, r in vtf.resources.items()]
+            if c['version'] >= 3 and want != [(k, r.flags, r.data) for k, r in v2.resources.items()]:
+                probs.append('resources')
+            s1 = {k: (q.frames, bool(q.clamp), q.duration) for k, q in vtf.sheet_info.items()}
+            s2 = {k: (q.frames, bool(q.clamp), q.duration) for k, q in v2.sheet_info.items()}
+            if c['version'] >= 3 and (s1 != s2 or list(s1) != list(s2)):
+                probs.append('sheet')
+            if list(v2._frames) != keys:
+                probs.append('frame keys')
+            for f, blk in zip(v2._frames.values(), blocks):
+                off = f._fileinfo[1]
+                if data[off:off + len(blk)] != blk:
+                    probs.append('frame bytes')
+                    break
+            if lowb and data[v2._low_res._fileinfo[1]:][:len(lowb)] != lowb:
+                probs.append('thumbnail bytes')
+            if probs:
+                bad.append({'direction': 'model file read by VTF.read', 'config': c, 'differs': probs})
+        except Exception as e:
+            bad.append({'direction': 'model file read by VTF.read', 'config': c, 'raises': f'{type(e).__name__}: {e}'})
+    ck.obligation('correspondence:container', not bad,
+                  f'{len(exprs) // 2} configurations (versions 7.2-7.5, cubemaps with/without sphere map, depth, frames, inline and out-of-line resources, '
+                  f'sheets v0/v1, float fields as bit patterns): files saved by VTF.save decode in the Coq model (generated formats) to the configuration, '
+                  f'and files encoded by the model are read by VTF.read with the same metadata, resources, sheets, frame keys and frame/thumbnail bytes: '
+                  f'{len(bad)} disagreements' + (f'; first: {json.dumps(bad[0], default=str)[:600]}' if bad else ''))
+    if bad:
+        ck.tie_broken.append('correspondence container model vs VTF.save / VTF.read')
+        ck.extra['container_disagreement'] = bad[:3]
+
+
+# ================================================================================================ frame life cycle
+FRAME_OBS = {
+    'frame_init_has_no_pixels_and_no_file_source': 'efftable_eqb gen_eff_init ideal_clear',
+    'frame_load_decodes_the_file_source_once_else_keeps_or_blanks': 'efftable_eqb gen_eff_load ideal_load',
+    'frame_clear_drops_pixels_and_file_source': 'efftable_eqb gen_eff_clear ideal_clear',
+    'frame_fill_replaces_pixels_and_forgets_file_source': 'efftable_eqb gen_eff_fill ideal_new',
+    'frame_copy_from_replaces_pixels_and_forgets_file_source': 'efftable_eqb gen_eff_copy_from ideal_new',
+    'frame_rescale_from_scales_and_keeps_file_source': 'efftable_eqb gen_eff_rescale_from ideal_rescale',
+    'frame_setitem_loads_then_edits': 'efftable_eqb gen_eff_setitem ideal_setitem',
+    'frame_other_methods_behave_like_a_modelled_operation': 'forallb (fun p => like_a_modelled_op (snd p)) gen_eff_others',
+    'frame_methods_load_a_parameter_frame_before_reading_its_pixels': 'match gen_unloaded_reads with nil => true | _ => false end',
+    'frame_slots_stored_outside_class_only_by_read_attach_and_exit_detach':
+        'forallb (fun e => existsb (fun a => String.eqb (fst (fst e)) (fst (fst a)) && String.eqb (snd (fst e)) (snd (fst a)) '
+        '&& String.eqb (snd e) (snd a)) (("__exit__", "_fileinfo", "none") :: ("read", "_fileinfo", "attach_fresh") :: nil))%string gen_external_stores',
+    'compute_mipmaps_loads_level_0_first': 'cm_loads_level0 gen_chaincfg',
+    'compute_mipmaps_regenerates_only_levels_without_pixels': 'match cm_guard gen_chaincfg with GDataNone | GDataNoneAndSrcNone => true | _ => false end',
+    'compute_mipmaps_scales_from_the_previous_level': 'cm_from_previous gen_chaincfg',
+    'rescale_from_loads_the_larger_frame_first': 'rs_loads_parent gen_chaincfg',
+    'save_calls_compute_mipmaps_before_the_frames': 'sv_computes_first gen_chaincfg',
+    'save_loads_each_frame_then_encodes_then_writes': 'chain_ok {| cm_loads_level0 := true; cm_guard := GDataNone; cm_from_previous := true; '
+                                                      'rs_loads_parent := true; sv_computes_first := true; sv_steps := sv_steps gen_chaincfg |}',
+    'frame_chain_configuration_ok': 'chain_ok gen_chaincfg',
+}
+
+PRE_FRAME = """Import ListNotations. Open Scope nat_scope. Open Scope list_scope.
+Inductive sym := SFile (m : nat) | SNew (k : nat) | SBlank (m : nat) | SScale (m : nat) (s : sym) | SMod (s : sym).
+Fixpoint ser (s : sym) : list nat :=
+  match s with SFile m => [0; m] | SNew k => [1; k] | SBlank m => [2; m] | SScale m s => 3 :: m :: ser s | SMod s => 4 :: ser s end.
+Definition out (l : list (option sym)) : list nat := flat_map (fun o => match o with Some s => ser s ++ [99] | None => [98; 99] end) l.
+Definition hist (n : nat) (ops : list (cop sym)) : list nat :=
+  let chain := map (fun m => {| f_data := None; f_src := Some (SFile m) |}) (seq 0 n) in
+  let chain' := run_cops sym sym SBlank (fun b => b) SScale gen_eff_load gen_eff_rescale_from gen_chaincfg
+                         gen_eff_clear gen_eff_fill gen_eff_copy_from gen_eff_setitem chain ops in
+  out (save_chain sym sym SBlank (fun b => b) (fun p => p) SScale gen_eff_load gen_eff_rescale_from gen_chaincfg chain').
+"""
+HIST_W, HIST_H = 32, 16
+
+
+def gen_history(rng: random.Random, n: int) -> list[list]:
+    ops: list[list] = []
+    k = 0
+    for _ in range(rng.choice([0, 1, 1, 2, 2, 3, 4, 6])):
+        kind = rng.choice(['load', 'clear', 'clear', 'fill', 'copy', 'set', 'rescale', 'compute', 'exit'])
+        m = rng.randrange(n)
+        if kind == 'rescale':
+            m = rng.randrange(1, n) if n > 1 else 0
+        if kind == 'exit' and rng.random() < 0.6:
+            kind = 'clear'
+        if kind in ('fill', 'copy'):
+            ops.append([kind, m, k, rng.randrange(1 << 30)])
+            k += 1
+        elif kind in ('compute', 'exit'):
+            ops.append([kind])
+        else:
+            ops.append([kind, m])
+    return ops
+
+
+def _hist_new_data(op: list, w: int, h: int) -> bytes:
+    r = random.Random(op[3])
+    if op[0] == 'fill':
+        return bytes(r.randrange(256) for _ in range(4)) * (w * h)
+    return r.randbytes(4 * w * h)
+
+
+def _set_px(b: bytes) -> bytes:
+    return bytes((1, 2, 3, 4)) + b[4:]
+
+
+def history_base(seed: int) -> tuple[bytes, int, list[bytes]]:
+    """A 32x16 RGBA8888 file whose stored levels are unrelated random pixels; -> (file, levels written, their pixels)."""
+    from srctools.vtf import VTF, ImageFormats
+    r = random.Random(seed)
+    v = VTF(HIST_W, HIST_H, fmt=ImageFormats.RGBA8888, thumb_fmt=ImageFormats.NONE)
+    for fr in v._frames.values():
+        fr.copy_from(r.randbytes(4 * fr.width * fr.height))
+    buf = io.BytesIO()
+    v.save(buf)
+    n = v.mipmap_count
+    return buf.getvalue(), n, [bytes(v.get(mipmap=m)._data) for m in range(n)]
+
+
+def run_history_impl(base: bytes, n: int, ops: list[list]) -> list[bytes]:
+    """The implementation: lazy read, operations, save, read back; pixels of levels 0..n-1 of the new file."""
+    from srctools.vtf import VTF
+    v = VTF.read(io.BytesIO(base))
+    for op in ops:
+        kind = op[0]
+        if kind == 'compute':
+            v.compute_mipmaps()
+            continue
+        if kind == 'exit':
+            v.__exit__(None, None, None)
+            continue
+        fr = v.get(mipmap=op[1])
+        if kind == 'load':
+            fr.load()
+        elif kind == 'clear':
+            fr.clear()
+        elif kind == 'fill':
+            fr.fill(*_hist_new_data(op, 1, 1))
+        elif kind == 'copy':
+            fr.copy_from(_hist_new_data(op, fr.width, fr.height))
+        elif kind == 'set':
+            fr[0, 0] = (1, 2, 3, 4)
+        elif kind == 'rescale':
+            if op[1] >= 1:
+                fr.rescale_from(v.get(mipmap=op[1] - 1))
+    out = io.BytesIO()
+    v.save(out)
+    v2 = VTF.read(io.BytesIO(out.getvalue()))
+    v2.load()
+    return [bytes(v2.get(mipmap=m)._data) for m in range(n)]
+
+
+def spec_history(levels: list[bytes], ops: list[list]) -> list[tuple[str, bytes]]:
+    """The property restated directly (independent of the Coq model and of the source): per level (why, pixels) that
+    save() must write.  A level keeps the file's pixels until something writes to it; reading never changes anything;
+    rescale_from/compute_mipmaps never replace pixels that are still only in the file; a cleared level is regenerated
+    from the level above AS WRITTEN; closing the file (__exit__) loses what was not read.
+    Whether compute_mipmaps()/rescale_from() happen to READ a level from the file as a side effect is not part of the
+    property, but an explicit rescale_from() of such a level and __exit__ behave differently afterwards: from the first
+    level where that matters on, the history is not judged ('unjudged')."""
+    n = len(levels)
+    dims = [(HIST_W >> m, HIST_H >> m) for m in range(n)]
+    blank = [bytes((0, 0, 0, 255)) * (w * h) for w, h in dims]
+    src = [True] * n
+    side = [False] * n          # the file source was consumed only as a side effect of another operation
+    data: list[bytes | None] = [None] * n
+    unjudged = n
+
+    def view(m):
+        return levels[m] if src[m] else (data[m] if data[m] is not None else blank[m])
+
+    def load(m, by_user):
+        nonlocal unjudged
+        if src[m] and not by_user:
+            side[m] = True
+        if by_user:
+            side[m] = False
+        data[m] = view(m)
+        src[m] = False
+
+    def rescale(m):
+        load(m - 1, False)
+        data[m] = ref_downscale(data[m - 1], *dims[m - 1], *dims[m], 4)
+
+    for op in ops:
+        kind = op[0]
+        if kind == 'compute':
+            load(0, False)
+            for m in range(1, n):
+                if data[m] is None:
+                    rescale(m)
+        elif kind == 'exit':
+            if any(side):
+                unjudged = min(unjudged, side.index(True))
+            src = [False] * n
+        elif kind == 'load':
+            load(op[1], True)
+        elif kind == 'clear':
+            data[op[1]], src[op[1]], side[op[1]] = None, False, False
+        elif kind in ('fill', 'copy'):
+            data[op[1]], src[op[1]], side[op[1]] = _hist_new_data(op, *dims[op[1]]), False, False
+        elif kind == 'set':
+            load(op[1], True)
+            data[op[1]] = _set_px(data[op[1]])
+        elif kind == 'rescale' and op[1] >= 1:
+            if side[op[1]]:
+                unjudged = min(unjudged, op[1])
+            rescale(op[1])
+    out: list[tuple[str, bytes]] = []
+    for m in range(n):
+        if m >= unjudged:
+            out.append(('unjudged', b''))
+        elif src[m]:
+            out.append(('file', levels[m]))
+        elif data[m] is not None:
+            out.append(('pixels', data[m]))
+        elif m == 0:
+            out.append(('blank', blank[0]))
+        else:
+            out.append(('regenerated', ref_downscale(out[m - 1][1], *dims[m - 1], *dims[m], 4)))
+    return out
+
+
+HIST_KEYS = {'file': 'frame-history-level-with-file-source-not-written-from-the-file',
+             'pixels': 'frame-history-pixels-of-a-level-not-written',
+             'blank': 'frame-history-cleared-level-0-not-blank',
+             'regenerated': 'frame-history-regenerated-level-not-average-of-its-written-parent'}
+
+
+def check_history(base: bytes, n: int, levels: list[bytes], ops: list[list]) -> list[tuple[str, str]]:
+    try:
+        got = run_history_impl(base, n, ops)
+    except Exception as e:
+        return [(f'frame-history-raises-{type(e).__name__}', f'lazy read, {ops}, save: {type(e).__name__}: {e}')]
+    probs = []
+    for m, ((why, exp), g) in enumerate(zip(spec_history(levels, ops), got)):
+        if why == 'unjudged':
+            break
+        if g != exp:
+            probs.append((HIST_KEYS[why], f'lazy read of a {HIST_W}x{HIST_H} file, then {ops}, then save: level {m} must be written from '
+                                          f'"{why}" but other pixels were written'))
+            break
+    return probs
+
+
+def _coq_ops(ops: list[list]) -> str:
+    out = []
+    for op in ops:
+        kind = op[0]
+        out.append({'load': lambda: f'CLoad sym {op[1]}', 'clear': lambda: f'CClear sym {op[1]}',
+                    'fill': lambda: f'CFill sym {op[1]} (SNew {op[2]})', 'copy': lambda: f'CCopy sym {op[1]} (SNew {op[2]})',
+                    'set': lambda: f'CSet sym {op[1]} SMod', 'rescale': lambda: f'CRescale sym {op[1]}',
+                    'compute': lambda: 'CCompute sym', 'exit': lambda: 'CDetachAll sym'}[kind]())
+    return '[' + '; '.join(out) + ']'
+
+
+def _interp_sym(toks: list[int], levels: list[bytes], news: dict[int, bytes], dims) -> bytes | None:
+    """one serialised symbolic value -> pixels"""
+    def go(i):
+        t = toks[i]
+        if t == 98:
+            return None, i + 1
+        if t == 0:
+            return levels[toks[i + 1]], i + 2
+        if t == 1:
+            return news[toks[i + 1]], i + 2
+        if t == 2:
+            w, h = dims[toks[i + 1]]
+            return bytes((0, 0, 0, 255)) * (w * h), i + 2
+        if t == 3:
+            m = toks[i + 1]
+            v, j = go(i + 2)
+            return ref_downscale(v, *dims[m - 1], *dims[m], 4), j
+        if t == 4:
+            v, j = go(i + 1)
+            return _set_px(v), j
+        raise ValueError(toks)
+    return go(0)[0]
+
+
+def corr_frames(ck: Ck, frame_ok: bool) -> None:
+    """Histories of Frame operations on a lazily read file: (a) the property restated in Python against the implementation
+    (concrete replays), (b) the GENERATED effect tables run by Coq on symbolic pixels against the implementation."""
+    base, n, levels = history_base(ck.seed)
+    dims = [(HIST_W >> m, HIST_H >> m) for m in range(n)]
+    fixed = [[], [['clear', n - 1]], [['clear', 1]], [['compute']], [['compute'], ['clear', n - 1]], [['rescale', 1]],
+             [['load', 1], ['clear', 2 % n]], [['set', 1]], [['exit']], [['load', 0], ['exit'], ['clear', 1]],
+             [['copy', 1, 0, 7], ['clear', 2 % n]], [['fill', 0, 0, 9], ['clear', 1]], [['clear', 0]]]
+    cases = fixed + [gen_history(ck.rng, n) for _ in range(ck.budget(140, 480))]
+    found: dict[str, tuple[list, str]] = {}
+    impl_out: list[list[bytes] | None] = []
+    for ops in cases:
+        ck.count('frame_histories')
+        ck.hist('frame_history_length', len(ops))
+        for op in ops:
+            ck.hist('frame_history_ops', op[0])
+        if ops:
+            ck.seen(('hist', json.dumps(ops)))
+        for key, what in check_history(base, n, levels, ops):
+            found.setdefault(key, (ops, what))
+        try:
+            impl_out.append(run_history_impl(base, n, ops))
+        except Exception:
+            impl_out.append(None)
+    for key, (ops, what) in found.items():
+        small = list(ops)           # shrink: drop operations while the same key is reported
+        i = 0
+        while i < len(small):
+            cand = small[:i] + small[i + 1:]
+            if any(k == key for k, _ in check_history(base, n, levels, cand)):
+                small = cand
+            else:
+                i += 1
+        what2 = next((w for k, w in check_history(base, n, levels, small) if k == key), what)
+        ck.violation(key, what2, {'history': small, 'seed': ck.seed, 'how': 'checks.c15.check_history(*history_base(seed), history)'})
+    ck.sample({'frame_history': cases[len(fixed)], 'levels': n, 'must_be_written_from': [w for w, _ in spec_history(levels, cases[len(fixed)])]})
+    if not frame_ok:
+        return
+    vals = ck.coq_eval(IMPORTS_FRAME, [f'hist {n} {_coq_ops(ops)}' for ops in cases], name='framehist', preamble=PRE_FRAME, timeout=600)
+    if vals is None:
+        ck.obligation('correspondence:frame-histories', False, 'the generated effect tables could not be run in Coq')
+        ck.tie_broken.append('correspondence frame histories: Coq evaluation failed')
+        return
+    bad = []
+    for ops, v, got in zip(cases, vals, impl_out):
+        toks = common.parse_coq_N_list(v)
+        per_level, cur = [], []
+        for t in toks:
+            if t == 99:
+                per_level.append(cur)
+                cur = []
+            else:
+                cur.append(t)
+        news = {op[2]: _hist_new_data(op, *dims[op[1]]) for op in ops if op[0] in ('fill', 'copy')}
+        model = [_interp_sym(t, levels, news, dims) for t in per_level]
+        if got is None or model != got:
+            m = next((i for i, (a, b) in enumerate(zip(model, got or [])) if a != b), None)
+            bad.append({'history': ops, 'level': m, 'model_says': per_level[m] if m is not None and m < len(per_level) else None})
+    ck.count('coq_frame_histories', len(cases))
+    ck.obligation('correspondence:frame-histories', not bad,
+                  f'{len(cases)} histories (lazy read, 0-6 operations load/clear/fill/copy_from/__setitem__/rescale_from/compute_mipmaps/__exit__, save): '
+                  f'the effect tables generated from vtf.py, run by vm_compute on symbolic pixels, predict the pixels the implementation writes for '
+                  f'every level: {len(bad)} disagreements' + (f'; first {bad[0]}' if bad else ''))
+    if bad:
+        ck.tie_broken.append('correspondence frame histories vs generated effect tables')
+        ck.extra['frame_history_disagreement'] = bad[:5]
+
+
 # ================================================================================================ main
 def run(ck: Ck) -> None:
     _patch_known()
@@ -717,20 +1363,31 @@ def run(ck: Ck) -> None:
                'over all writable formats, flags, reflectivity, bump scale, 0-4 resources inline/offset, particle sheets v0/v1, all levels '
                'given or generated from level 0); non-trivial = more than one pixel or has resources/sheets; distinct by full configuration. '
                'bounds: all (x,y) in [-3, w+3) x [-3, h+3) for six frame shapes, non-trivial = outside the frame. '
-               'filters: five filter modes on six shapes.')
+               'filters: five filter modes on six shapes. '
+               'frame histories: a 32x16 RGBA8888 file with unrelated random levels is read lazily, 0-6 random operations '
+               '(load/clear/fill/copy_from/__setitem__/rescale_from/compute_mipmaps/__exit__ on random levels) plus 13 fixed histories, '
+               'then save; distinct by the operation list, non-trivial = at least one operation. '
+               'container: small sizes, versions 7.2-7.5, cubemaps, depth, frames, 0-4 resources, sheets; distinct by configuration. '
+               'cubemap save(version=) overrides: all 12 ordered pairs of versions.')
     ck.trusted.append('Fmt/VtfPixelExpr.v specification tuples spec_* / canon_* (hand-written from the docstrings; their meaning as functions '
                       'is restated by c15_spec_* theorems) and checks/c15.py ref_quantise (independent Python restatement used by the oracle)')
+    ck.trusted.append('translate/c15_frame.py tables D_COQ/S_COQ and READERS, translate/c15_container.py tables SAVE_FIELD/READ_FIELD/READ_ATTR '
+                      '(which source expression is which field); checks/c15.py spec_history (independent restatement of what save must write)')
     ck.assumptions += [
+        'a frame is not passed to its own copy_from/rescale_from (no aliasing of self and the parameter frame)',
+        'the container theorems are per site / per block; their composition into the whole file is tied by correspondence only',
         'pixel buffers hold bytes (array("B") / bytearray): every theorem about codecs is for components in 0..255',
         'width and height are powers of two (VTF.__init__ rejects everything else)',
         'Python int arithmetic is unbounded: the codec expressions are evaluated over N without wrap-around',
     ]
     ok1 = ck.translate('PixelCodecs_gen', c15_pixel.translate_codecs)
     ok2 = ck.translate('VtfLayout_gen', c15_pixel.translate_layout)
+    ok3 = ck.translate('VtfFrameSM_gen', c15_frame.translate_frame)
+    ok4 = ck.translate('VtfContainer_gen', c15_container.translate_container)
     cod = None
     if ok1:
         cod, _ = c15_pixel.codecs_ir()
-    built = ok1 and ok2 and ck.build(['Props/C15.vo'])
+    built = ok1 and ok2 and ok3 and ok4 and ck.build(['Props/C15.vo'])
     if built:
         ck.theorems('Props/C15.v')
         obs: dict[str, str] = {}
@@ -766,11 +1423,16 @@ def run(ck: Ck) -> None:
             'nearest_filters_pick_block_corners': 'terms_eqb nearest_terms block_terms',
         })
         ck.instance_obligations(IMPORTS, obs)
+        ck.instance_obligations(IMPORTS_FRAME, FRAME_OBS, name='inst_frame')
+        ck.instance_obligations(IMPORTS_CONT, CONT_OBS, name='inst_cont')
+        corr_container(ck)
         corr_codecs(ck, cod)
+    corr_frames(ck, bool(built))
     search_codecs(ck)
     search_bounds(ck)
     search_filters(ck)
     search_files(ck)
+    search_cube_override(ck)
     # which broken obligations do the concrete violations explain?
     keys = {v['key'] for v in ck.violations}
     for k in keys:
@@ -779,6 +1441,25 @@ def run(ck: Ck) -> None:
             ck.explain(f'instance:{f}_')
             ck.explain('correspondence:')
             ck.explain('translate:PixelCodecs_gen')
+        if k.startswith(('sheet-differs', 'resources-differ', 'meta-', 'resave-differs')):
+            ck.explain('translate:VtfContainer_gen')
+            ck.explain('instance:site_')
+            ck.explain('instance:sheet_')
+            ck.explain('instance:header_')
+            ck.explain('instance:offset_entries')
+            ck.explain('instance:data_block')
+            ck.explain('instance:every_deferred')
+            ck.explain('instance:version_tests')
+            ck.explain('instance:padding_')
+            ck.explain('instance:reader_tests')
+            ck.explain('correspondence:container')
+        if k.startswith(('frame-history-', 'lazy-resave-')):
+            ck.explain('instance:frame_')
+            ck.explain('instance:compute_mipmaps_')
+            ck.explain('instance:rescale_from_')
+            ck.explain('instance:save_')
+            ck.explain('correspondence:frame-histories')
+            ck.explain('translate:VtfFrameSM_gen')
         if k.startswith('frame-getitem'):
             ck.explain('instance:getitem_')
         if k.startswith('frame-setitem'):
@@ -790,6 +1471,16 @@ def run(ck: Ck) -> None:
             ck.explain('build:')
         if k.startswith(('mipmap-count', 'frame-table', 'mip-dimensions', 'save-raises', 'read-raises', 'frame-dimensions', 'compute-mipmaps-raises', 'pixels-displaced')):
             ck.explain('translate:VtfLayout_gen')
+            ck.explain('translate:VtfContainer_gen')
+            ck.explain('instance:site_')
+            ck.explain('instance:header_')
+            ck.explain('instance:offset_entries')
+            ck.explain('instance:data_block')
+            ck.explain('instance:every_deferred')
+            ck.explain('instance:version_tests')
+            ck.explain('instance:padding_')
+            ck.explain('instance:reader_tests')
+            ck.explain('correspondence:container')
             ck.explain('instance:mip')
             ck.explain('instance:read_level')
             ck.explain('instance:save_and_read')
@@ -810,6 +1501,14 @@ def replay(data: dict) -> int:
         ld = impl_load(f, st)
         print(f'{f.name}: pixel {p} stored {st[0]} loaded {ld[0]} stored again {impl_save(f, ld)[0]}; documented quantisation '
               f'{tuple(ref_quantise(f.name, bytes(p)))}')
+        return 0
+    if 'cube_override' in r:
+        print(cube_override(*r['cube_override']))
+        return 0
+    if 'history' in r:
+        base, n, levels = history_base(r['seed'])
+        for k, w in check_history(base, n, levels, r['history']):
+            print(k, '::', w)
         return 0
     if 'bounds' in r:
         from srctools.vtf import VTF
